@@ -5,3 +5,30 @@ let rec pos_of_int (i : int) : positive =
 let z_of_int (i : int) : z = if i = 0 then Z0 else if i > 0 then Zpos (pos_of_int i) else Zneg (pos_of_int (- i))
 let rec int_of_pos (p : positive) : int = match p with XH -> 1 | XO q -> 2 * int_of_pos q | XI q -> 2 * int_of_pos q + 1
 let int_of_z (x : z) : int = match x with Z0 -> 0 | Zpos p -> int_of_pos p | Zneg p -> - (int_of_pos p)
+
+(* full 64-bit range and decimal strings (Go's int is 64 bit; OCaml's int is 63) *)
+let rec pos_of_int64 (i : int64) : positive =
+  if Int64.compare i 1L <= 0 then XH
+  else if Int64.logand i 1L = 0L then XO (pos_of_int64 (Int64.shift_right_logical i 1))
+  else XI (pos_of_int64 (Int64.shift_right_logical i 1))
+let z_of_int64 (i : int64) : z =
+  if i = 0L then Z0
+  else if Int64.compare i 0L > 0 then Zpos (pos_of_int64 i)
+  else if i = Int64.min_int then Zneg (XO (pos_of_int64 (Int64.shift_right_logical i 1)))
+  else Zneg (pos_of_int64 (Int64.neg i))
+let z_of_string (s : string) : z = z_of_int64 (Int64.of_string s)
+(* decimal printing of an arbitrary Z by repeated division of the bit list *)
+let rec bits_of_pos (p : positive) : bool list = match p with XH -> [true] | XO q -> false :: bits_of_pos q | XI q -> true :: bits_of_pos q
+let string_of_pos (p : positive) : string =
+  (* digits little endian in base 10^9 *)
+  let base = 1_000_000_000 in
+  let digits = ref [0] in
+  let mul2add (c : int) =
+    let carry = ref c in
+    digits := List.map (fun d -> let v = 2 * d + !carry in carry := v / base; v mod base) !digits;
+    if !carry > 0 then digits := !digits @ [!carry] in
+  List.iter (fun b -> mul2add (if b then 1 else 0)) (List.rev (bits_of_pos p));
+  match List.rev !digits with
+  | [] -> "0"
+  | hd :: tl -> String.concat "" (string_of_int hd :: List.map (Printf.sprintf "%09d") tl)
+let string_of_z (x : z) : string = match x with Z0 -> "0" | Zpos p -> string_of_pos p | Zneg p -> "-" ^ string_of_pos p
